@@ -14,18 +14,22 @@
 
     b64dec_b64enc, b64_builtin_roundtrip          b64dec(b64enc(x)) = x, all byte lists
     int_str_roundtrip, stoll_to_string            int(str(i)) = i, all Int64 (INT64_MIN included)
-    substr_contract(2), subraw_contract(2)        = Spec.Text.substr, a sublist of x; begin = INT64_MIN: the hazard
-    substr_full_false                             … so the unrestricted statement is false (witness)
+    substr_contract(2), subraw_contract(2)        = Spec.Text.substr, a sublist of x — ALL positions and counts, INT64_MIN
+                                                  included (the `c - a` overflow was repaired in e2c4824)
+    substr_full                                   … so the unrestricted statement "never undefined behaviour" holds
     lsubstr_contract, rsubstr_contract            = Spec.Text.lsubstr / rsubstr, no exclusion
     substr_null_in_null_out, …                    null / untyped null in → typed null out
     substr_returns_sublist                        every argument list: typed null, the argument itself, or a sublist
-    text_builtins_no_hazard                       21 built-ins × every argument list: never a C-level hazard
-                                                  outside `knownHazard` (substr/subraw INT64_MIN, hex pad count)
-    hex_hazard_region                             the hex region is exact
+    text_builtins_no_hazard                       23 built-ins × every argument list: never a C-level hazard (no excluded
+                                                  region any more: `knownHazard` is gone)
+    hex_contract, hex_contract1, hex_pad, hex_value   hex(v, n) = Spec.Text.hex for EVERY value and pad count (negative, > 16,
+                                                  INT64_MAX: the `n += 1` overflow was repaired in cbe22cc)
+    abs_contract, abs_decimal, abs_null           abs(l) = |l| reduced modulo 2^64 (abs(INT64_MIN) = INT64_MIN, repaired in fde74fa)
+    pow_exact, pow_negative_exponent, pow_eq_operator   pow(a, n) = a^n mod 2^64 exactly, = `a ** n` for all operands (eec6e8e)
     strpos_contract, strpos_negative_start        first occurrence at or after start, or null
     replace_empty_needle, replace_absent_needle   the input comes back
     upper_length, lower_length, trim_infix, …     length preserved / result is a sublist
-    hex_digits                                    1..16 lower-case hex digits
+    hex_digits                                    1..16 lower-case hex digits, always returned
     tokenize_join                                 pieces joined by the separator = the string (trimnull off)
     strlen_value
     raw_contract, hash_range                      raw(n, v): size ≥ 0, code 0..255; hash(x, m) ∈ [0, m), m outside 1..2^32−1 refused
@@ -37,6 +41,7 @@ import BlocV.Proofs.Lemmas.NoHazard
 import BlocV.Proofs.Lemmas.Text
 import BlocV.Proofs.Lemmas.Int64
 import BlocV.Model.Members
+import BlocV.Proofs.C03
 
 namespace BlocV.C10
 open BlocV BlocV.Lemmas
@@ -126,59 +131,52 @@ example (fmt : Num.F64 → Bytes) :
 /-! ## substr / subraw / lsubstr / rsubstr -/
 
 /-- **substr(x, begin, count)** for every string of representable length and ALL `Int64` positions
-and counts (negative, zero, oversized): the result is `Spec.Text.substr` — hence a contiguous
-sublist of `x` (`Spec.Text.substr_infix`) — except when `x` is non-empty and `begin = INT64_MIN`,
-where `c - a` overflows in builtin_substr.cpp (recorded finding C10.substr.signedOverflow). -/
+and counts (negative, zero, oversized, INT64_MIN, INT64_MAX): the result is `Spec.Text.substr` — hence a
+contiguous sublist of `x` (`Spec.Text.substr_infix`). No exclusion: a position that is still negative
+after adding the length selects nothing, and `c - a` is not computed for it (builtin_substr.cpp after
+commit e2c4824; before, `begin = INT64_MIN` was the finding C10.substr.signedOverflow). -/
 theorem substr_contract (s : Bytes) (hlen : s.length < 2 ^ 63) (a0 b0 : Int64) :
     biSubstr (m := Res) [.ok (.str s), .ok (.int a0), .ok (.int b0)] =
-      if s ≠ [] ∧ a0 = Int64.minValue then .haz .signedOverflow
-      else .ok (.str (Spec.Text.substr s a0.toInt (some b0.toInt))) := by
+      .ok (.str (Spec.Text.substr s a0.toInt (some b0.toInt))) := by
   rw [biSubstr, substrLike_res3]
   by_cases hs : s = []
   · subst hs; simp [Val.type, Ty.str, readPos, Val.isNull, Val.asStr, Val.asInt, Ty.int, lenI, spec_substr_nil]
   · have hz : (lenI s == 0) = false := by rw [lenI_eq_zero s hlen]; simpa using hs
     have hz' : ¬ lenI s = 0 := by simpa using hz
-    by_cases hm : a0 = Int64.minValue <;>
-      simp [Val.type, Ty.str, readPos, Val.isNull, Val.asStr, Val.asInt, Ty.int, hz', substrTail_spec s hlen hs, hs, hm]
+    simp [Val.type, Ty.str, readPos, Val.isNull, Val.asStr, Val.asInt, Ty.int, hz', substrTail_spec s hlen]
 
 /-- `substr(x, begin)`: the same with the count absent (everything from `begin`). -/
 theorem substr_contract2 (s : Bytes) (hlen : s.length < 2 ^ 63) (a0 : Int64) :
     biSubstr (m := Res) [.ok (.str s), .ok (.int a0)] =
-      if s ≠ [] ∧ a0 = Int64.minValue then .haz .signedOverflow
-      else .ok (.str (Spec.Text.substr s a0.toInt none)) := by
+      .ok (.str (Spec.Text.substr s a0.toInt none)) := by
   rw [biSubstr, substrLike_res2]
   by_cases hs : s = []
   · subst hs; simp [Val.type, Ty.str, readPos, Val.isNull, Val.asStr, Val.asInt, Ty.int, lenI, spec_substr_nil]
   · have hz : (lenI s == 0) = false := by rw [lenI_eq_zero s hlen]; simpa using hs
     have hz' : ¬ lenI s = 0 := by simpa using hz
-    by_cases hm : a0 = Int64.minValue <;>
-      simp [Val.type, Ty.str, readPos, Val.isNull, Val.asStr, Val.asInt, Ty.int, hz', substrTail_spec s hlen hs, hs, hm]
+    simp [Val.type, Ty.str, readPos, Val.isNull, Val.asStr, Val.asInt, Ty.int, hz', substrTail_spec s hlen]
     simp [Spec.Text.substr, lenI_toInt s hlen]
 
-/-- `subraw(x, begin, count)` on byte arrays: same contract (builtin_subraw.cpp). -/
+/-- `subraw(x, begin, count)` on byte arrays: same contract, same repair (builtin_subraw.cpp). -/
 theorem subraw_contract (s : Bytes) (hlen : s.length < 2 ^ 63) (a0 b0 : Int64) :
     biSubraw (m := Res) [.ok (.raw s), .ok (.int a0), .ok (.int b0)] =
-      if s ≠ [] ∧ a0 = Int64.minValue then .haz .signedOverflow
-      else .ok (.raw (Spec.Text.substr s a0.toInt (some b0.toInt))) := by
+      .ok (.raw (Spec.Text.substr s a0.toInt (some b0.toInt))) := by
   rw [biSubraw, substrLike_res3]
   by_cases hs : s = []
   · subst hs; simp [Val.type, Ty.raw, readPos, Val.isNull, Val.asRaw, Val.asInt, Ty.int, lenI, spec_substr_nil]
   · have hz : (lenI s == 0) = false := by rw [lenI_eq_zero s hlen]; simpa using hs
     have hz' : ¬ lenI s = 0 := by simpa using hz
-    by_cases hm : a0 = Int64.minValue <;>
-      simp [Val.type, Ty.raw, readPos, Val.isNull, Val.asRaw, Val.asInt, Ty.int, hz', substrTail_spec s hlen hs, hs, hm]
+    simp [Val.type, Ty.raw, readPos, Val.isNull, Val.asRaw, Val.asInt, Ty.int, hz', substrTail_spec s hlen]
 
 theorem subraw_contract2 (s : Bytes) (hlen : s.length < 2 ^ 63) (a0 : Int64) :
     biSubraw (m := Res) [.ok (.raw s), .ok (.int a0)] =
-      if s ≠ [] ∧ a0 = Int64.minValue then .haz .signedOverflow
-      else .ok (.raw (Spec.Text.substr s a0.toInt none)) := by
+      .ok (.raw (Spec.Text.substr s a0.toInt none)) := by
   rw [biSubraw, substrLike_res2]
   by_cases hs : s = []
   · subst hs; simp [Val.type, Ty.raw, readPos, Val.isNull, Val.asRaw, Val.asInt, Ty.int, lenI, spec_substr_nil]
   · have hz : (lenI s == 0) = false := by rw [lenI_eq_zero s hlen]; simpa using hs
     have hz' : ¬ lenI s = 0 := by simpa using hz
-    by_cases hm : a0 = Int64.minValue <;>
-      simp [Val.type, Ty.raw, readPos, Val.isNull, Val.asRaw, Val.asInt, Ty.int, hz', substrTail_spec s hlen hs, hs, hm]
+    simp [Val.type, Ty.raw, readPos, Val.isNull, Val.asRaw, Val.asInt, Ty.int, hz', substrTail_spec s hlen]
     simp [Spec.Text.substr, lenI_toInt s hlen]
 
 /-- What "never reads outside the data" means for the slice: whatever `substr`/`subraw` return on a
@@ -186,23 +184,31 @@ string is a contiguous sublist of the argument. -/
 theorem substr_result_infix (s : Bytes) (hlen : s.length < 2 ^ 63) (a0 b0 : Int64) (r : Bytes)
     (h : biSubstr (m := Res) [.ok (.str s), .ok (.int a0), .ok (.int b0)] = .ok (.str r)) : r <:+: s := by
   rw [substr_contract s hlen] at h
-  split at h
-  · cases h
-  · injection h with h; injection h with h; subst h; exact Spec.Text.substr_infix _ _ _
+  injection h with h; injection h with h; subst h; exact Spec.Text.substr_infix _ _ _
 
 example : biSubstr (m := Res) [.ok (.str [104, 0, 255, 108, 111]), .ok (.int (-3)), .ok (.int 2)] = .ok (.str [255, 108]) := by
   rw [substr_contract _ (by decide)]; rfl
 example : biSubstr (m := Res) [.ok (.str [1, 2, 3]), .ok (.int 9223372036854775807), .ok (.int (-5))] = .ok (.str []) := by
   rw [substr_contract _ (by decide)]; rfl
+/-- the former finding region: begin = INT64_MIN on a non-empty string / byte array selects nothing -/
+example : biSubstr (m := Res) [.ok (.str [97, 98]), .ok (.int Int64.minValue)] = .ok (.str []) := by
+  rw [substr_contract2 _ (by decide), show Spec.Text.substr [97, 98] Int64.minValue.toInt none = [] by decide +kernel]
+example : biSubraw (m := Res) [.ok (.raw [97, 98]), .ok (.int Int64.minValue), .ok (.int 1)] = .ok (.raw []) := by
+  rw [subraw_contract _ (by decide), show Spec.Text.substr [97, 98] Int64.minValue.toInt (some (1 : Int64).toInt) = [] by decide +kernel]
+example : biSubstr (m := Res) [.ok (.str [97, 98]), .ok (.int (-9223372036854775807))] = .ok (.str []) := by
+  rw [substr_contract2 _ (by decide), show Spec.Text.substr [97, 98] (-9223372036854775807 : Int64).toInt none = [] by decide +kernel]
 
-/-- The unrestricted statement "substr never reaches undefined behaviour" is FALSE for the model (and
-for the pinned code, UBSan: `substr("ab", -9223372036854775807-1)`): witness. -/
-theorem substr_full_false :
-    ¬ ∀ (s : Bytes) (a0 : Int64), (biSubstr (m := Res) [.ok (.str s), .ok (.int a0)]).isHazard = false := by
-  intro h
-  have := h [97, 98] Int64.minValue
-  rw [substr_contract2 _ (by decide)] at this
-  simp [Res.isHazard] at this
+/-- The unrestricted statement "substr / subraw never reach undefined behaviour", for every string of
+representable length and EVERY position — INT64_MIN included. (Before commit e2c4824 this was false:
+`substr("ab", -9223372036854775807-1)` overflowed in `c - a`; the theorem was `substr_full_false`.) -/
+theorem substr_full (s : Bytes) (hlen : s.length < 2 ^ 63) (a0 : Int64) :
+    (biSubstr (m := Res) [.ok (.str s), .ok (.int a0)]).isHazard = false ∧
+    (biSubraw (m := Res) [.ok (.raw s), .ok (.int a0)]).isHazard = false := by
+  rw [substr_contract2 s hlen, subraw_contract2 s hlen]
+  exact ⟨rfl, rfl⟩
+
+example : (biSubstr (m := Res) [.ok (.str [97, 98]), .ok (.int Int64.minValue)]).isHazard = false :=
+  (substr_full [97, 98] (by decide) Int64.minValue).1
 
 /-- **lsubstr(x, count)**: the first `count` bytes, for ALL counts; no exclusion. -/
 theorem lsubstr_contract (s : Bytes) (hlen : s.length < 2 ^ 63) (b : Int64) :
@@ -267,31 +273,27 @@ example : SubShape Ty.str Val.str [.str [1, 2, 3], .num 0x4000000000000000] (.st
 
 /-! ## No C-level hazard, for every argument list -/
 
-/-- The regions still recorded as known findings (known_findings.json, status "known"):
-C10.substr.signedOverflow / C10.subraw.signedOverflow (= C01.bi.substr.overflow, C01.bi.subraw.overflow)
-and C10.hex.signedOverflow (= C01.bi.hex.overflow). A decidable predicate on (name, argument values). -/
-def knownHazard (name : String) (args : List Val) : Bool :=
-  ((name == "substr" || name == "subraw") && substrKF args) || (name == "hex" && hexKF args)
-
 /-- The built-ins covered by the totality theorem. -/
 def textBuiltins : List String :=
   ["substr", "subraw", "lsubstr", "rsubstr", "strpos", "replace", "trim", "ltrim", "rtrim", "upper", "lower",
-   "strlen", "tokenize", "hex", "hash", "chr", "raw", "int", "b64enc", "b64dec", "str"]
+   "strlen", "tokenize", "hex", "hash", "chr", "raw", "int", "b64enc", "b64dec", "str", "abs", "pow"]
 
-/-- **Totality without undefined behaviour.** For each of the 21 string/bytes/conversion built-ins and
-EVERY argument list — any number of arguments, of any types (also those the parse-time signature
-table would refuse), nulls, typed nulls, tables, tuples, every `Int64`, every decimal bit pattern,
-every byte list — the built-in is dispatched and its outcome is a value, a BLOC runtime error or
-"unmodelled" (imaginary operand of `int`), never a C-level hazard (null dereference, signed
-overflow, out-of-range float→int cast), provided the arguments are well-formed values and lie
-outside the recorded finding regions `knownHazard`. -/
+/-- **Totality without undefined behaviour.** For each of the 21 string/bytes/conversion built-ins, `abs`
+and `pow`, and EVERY argument list — any number of arguments, of any types (also those the parse-time
+signature table would refuse), nulls, typed nulls, tables, tuples, every `Int64`, every decimal bit
+pattern, every byte list — the built-in is dispatched and its outcome is a value, a BLOC runtime error
+or "unmodelled" (an imaginary operand of `int`, `abs`, `pow`), never a C-level hazard (null
+dereference, signed overflow, out-of-range float→int cast), provided the arguments are well-formed
+values. There is NO excluded region any more: the former `knownHazard` predicate (substr/subraw with
+begin = INT64_MIN, hex with a pad count within 15 of INT64_MAX) is gone with the repairs e2c4824 and
+cbe22cc, and abs(INT64_MIN) (fde74fa) and pow(integer, integer) (eec6e8e) are covered as well. -/
 theorem text_builtins_no_hazard (fmt : Num.F64 → Bytes) (name : String) (hname : name ∈ textBuiltins) (args : List Val)
-    (hwf : ∀ v ∈ args, wfVal v = true) (hkf : knownHazard name args = false) :
+    (hwf : ∀ v ∈ args, wfVal v = true) :
     ∃ r, evalBuiltin (m := Res) fmt name (args.map .ok) = some r ∧ r.isHazard = false := by
   simp only [textBuiltins, List.mem_cons, List.not_mem_nil, or_false] at hname
-  rcases hname with rfl | rfl | rfl | rfl | rfl | rfl | rfl | rfl | rfl | rfl | rfl | rfl | rfl | rfl | rfl | rfl | rfl | rfl | rfl | rfl | rfl
-  · exact ⟨_, rfl, substrLike_nh _ _ _ _ (fun v s h => .inl (asStr_ok v s h)) asStr_nh args hwf (by simpa [knownHazard] using hkf)⟩
-  · exact ⟨_, rfl, substrLike_nh _ _ _ _ (fun v s h => .inr (asRaw_ok v s h)) asRaw_nh args hwf (by simpa [knownHazard] using hkf)⟩
+  rcases hname with rfl | rfl | rfl | rfl | rfl | rfl | rfl | rfl | rfl | rfl | rfl | rfl | rfl | rfl | rfl | rfl | rfl | rfl | rfl | rfl | rfl | rfl | rfl
+  · exact ⟨_, rfl, substrLike_nh _ _ _ _ (fun v s h => .inl (asStr_ok v s h)) asStr_nh args hwf⟩
+  · exact ⟨_, rfl, substrLike_nh _ _ _ _ (fun v s h => .inr (asRaw_ok v s h)) asRaw_nh args hwf⟩
   · exact ⟨_, rfl, lrSubstr_nh _ args hwf⟩
   · exact ⟨_, rfl, lrSubstr_nh _ args hwf⟩
   · exact ⟨_, rfl, strpos_nh args hwf⟩
@@ -303,7 +305,7 @@ theorem text_builtins_no_hazard (fmt : Num.F64 → Bytes) (name : String) (hname
   · exact ⟨_, rfl, strMap_nh _ args hwf⟩
   · exact ⟨_, rfl, strlen_nh args hwf⟩
   · exact ⟨_, rfl, tokenize_nh args hwf⟩
-  · exact ⟨_, rfl, hex_nh args hwf (by simpa [knownHazard] using hkf)⟩
+  · exact ⟨_, rfl, hex_nh args hwf⟩
   · exact ⟨_, rfl, hash_nh args hwf⟩
   · exact ⟨_, rfl, chr_nh args hwf⟩
   · exact ⟨_, rfl, raw_nh args hwf⟩
@@ -311,45 +313,36 @@ theorem text_builtins_no_hazard (fmt : Num.F64 → Bytes) (name : String) (hname
   · exact ⟨_, rfl, b64_nh _ args hwf⟩
   · exact ⟨_, rfl, b64_nh _ args hwf⟩
   · exact ⟨_, rfl, str_nh _ args hwf⟩
+  · exact ⟨_, rfl, abs_nh args hwf⟩
+  · exact ⟨_, rfl, pow_nh args hwf⟩
 
 /-- instances: a typed-null start position of `strpos` (the repaired null dereference), `hash` with
-zero buckets, a table where a string is expected, `substr` just beside the excluded point. -/
+zero buckets, a table where a string is expected, and the four repaired overflow points: `substr` /
+`subraw` at INT64_MIN, `hex` with pad count INT64_MAX, `abs(INT64_MIN)`, `pow(INT64_MAX, 5)`. -/
 example (fmt : Num.F64 → Bytes) : ∃ r, evalBuiltin (m := Res) fmt "strpos"
     ([.str [97], .str [97], .null Ty.int].map .ok) = some r ∧ r.isHazard = false :=
-  text_builtins_no_hazard fmt _ (by decide) _ (by decide) (by decide)
+  text_builtins_no_hazard fmt _ (by decide) _ (by decide)
 example (fmt : Num.F64 → Bytes) : ∃ r, evalBuiltin (m := Res) fmt "hash"
     ([.str [97], .int 0].map .ok) = some r ∧ r.isHazard = false :=
-  text_builtins_no_hazard fmt _ (by decide) _ (by decide) (by decide)
+  text_builtins_no_hazard fmt _ (by decide) _ (by decide)
 example (fmt : Num.F64 → Bytes) : ∃ r, evalBuiltin (m := Res) fmt "upper"
     ([.tab { major := .str, level := 1 } [] [.str [97]]].map .ok) = some r ∧ r.isHazard = false :=
-  text_builtins_no_hazard fmt _ (by decide) _ (by decide) (by decide)
+  text_builtins_no_hazard fmt _ (by decide) _ (by decide)
 example (fmt : Num.F64 → Bytes) : ∃ r, evalBuiltin (m := Res) fmt "substr"
-    ([.str [97, 98], .int (-9223372036854775807)].map .ok) = some r ∧ r.isHazard = false :=
-  text_builtins_no_hazard fmt _ (by decide) _ (by decide) (by decide +kernel)
-example : knownHazard "substr" [.str [97, 98], .int Int64.minValue] = true := by decide +kernel
-example : knownHazard "hex" [.int 0, .int 9223372036854775807] = true := by decide +kernel
-
-/-- The `hex` region is exact: with an integer value and an integer pad count `n`, the `n += 1` of
-`HEXExpression::hex` overflows (undefined behaviour) if and only if `n > INT64_MAX − 15`. -/
-theorem hex_hazard_region (v n : Int64) :
-    biHex (m := Res) [.ok (.int v), .ok (.int n)] = .haz .signedOverflow ↔ n.toInt + 15 ≥ 2 ^ 63 := by
-  have e : biHex (m := Res) [.ok (.int v), .ok (.int n)] = hexLoop v 15 n 0 [] >>= fun s => .ok (.str s) := by rfl
-  rw [e]
-  constructor
-  · intro h
-    apply Decidable.byContradiction
-    intro hc
-    have := hexLoop_nh v 15 n 0 [] (by omega)
-    cases hl : hexLoop v 15 n 0 [] with
-    | haz x => rw [hl] at this; simp [Res.isHazard] at this
-    | ok a => rw [hl] at h; cases h
-    | err c x => rw [hl] at h; cases h
-    | unmodelled => rw [hl] at h; cases h
-  · intro h
-    rw [hexLoop_haz v 15 n 0 [] (by decide) (by omega)]; rfl
-
-example : biHex (m := Res) [.ok (.int 0), .ok (.int 9223372036854775807)] = .haz .signedOverflow :=
-  (hex_hazard_region 0 9223372036854775807).mpr (by decide)
+    ([.str [97, 98], .int Int64.minValue].map .ok) = some r ∧ r.isHazard = false :=
+  text_builtins_no_hazard fmt _ (by decide) _ (by decide)
+example (fmt : Num.F64 → Bytes) : ∃ r, evalBuiltin (m := Res) fmt "subraw"
+    ([.raw [97, 98], .num 0xc3e0000000000000].map .ok) = some r ∧ r.isHazard = false :=
+  text_builtins_no_hazard fmt _ (by decide) _ (by decide)
+example (fmt : Num.F64 → Bytes) : ∃ r, evalBuiltin (m := Res) fmt "hex"
+    ([.int 0, .int 9223372036854775807].map .ok) = some r ∧ r.isHazard = false :=
+  text_builtins_no_hazard fmt _ (by decide) _ (by decide)
+example (fmt : Num.F64 → Bytes) : ∃ r, evalBuiltin (m := Res) fmt "abs"
+    ([.int Int64.minValue].map .ok) = some r ∧ r.isHazard = false :=
+  text_builtins_no_hazard fmt _ (by decide) _ (by decide)
+example (fmt : Num.F64 → Bytes) : ∃ r, evalBuiltin (m := Res) fmt "pow"
+    ([.int 9223372036854775807, .int 5].map .ok) = some r ∧ r.isHazard = false :=
+  text_builtins_no_hazard fmt _ (by decide) _ (by decide)
 
 /-! ## strpos -/
 
@@ -467,26 +460,170 @@ theorem strlen_value (s : Bytes) (hlen : s.length < 2 ^ 63) :
 
 /-! ## hex -/
 
-/-- Whenever `hex(v, n)` returns, the result consists of between 1 and 16 lower-case hexadecimal
+/-- **hex(v, n) is `Spec.Text.hex`, for EVERY integer value and EVERY pad count**: the 64-bit
+two's-complement pattern of `v` in lower-case hexadecimal, leading zeros removed while more than
+`max 1 (min n 16)` digits remain. Negative pad counts and 0, 1 pad nothing; 16 and everything beyond, up
+to INT64_MAX, give all 16 digits — the pad count is clamped to 16 before the digit loop (commit cbe22cc),
+so its `n += 1` cannot overflow. (This replaces `hex_hazard_region`, which stated that the loop
+overflowed exactly for `n > INT64_MAX − 15`.) -/
+theorem hex_contract (v n : Int64) :
+    biHex (m := Res) [.ok (.int v), .ok (.int n)] = .ok (.str (Spec.Text.hex v.toInt n.toInt)) := by
+  have e : biHex (m := Res) [.ok (.int v), .ok (.int n)] = hexStr v n >>= fun s => .ok (.str s) := by rfl
+  rw [e, hexStr_spec]; rfl
+
+/-- `hex(v)`: no padding (pad count 0). -/
+theorem hex_contract1 (v : Int64) :
+    biHex (m := Res) [.ok (.int v)] = .ok (.str (Spec.Text.hex v.toInt 0)) := by
+  have e : biHex (m := Res) [.ok (.int v)] = hexStr v 0 >>= fun s => .ok (.str s) := by rfl
+  rw [e, hexStr_spec]; rfl
+
+/-- Padding, for every pad count: the result has at least `min n 16` digits, at least one, at most 16. -/
+theorem hex_pad (v n : Int64) :
+    ∃ ds, biHex (m := Res) [.ok (.int v), .ok (.int n)] = .ok (.str ds) ∧
+      (max 1 (min n.toInt 16)).toNat ≤ ds.length ∧ ds.length ≤ 16 :=
+  ⟨_, hex_contract v n, Spec.Text.hex_length _ _⟩
+
+/-- The digits, for every value and pad count: read back as a hexadecimal numeral the result is the 64-bit
+two's-complement pattern of `v` (`v` itself when `v ≥ 0`, `v + 2^64` when `v < 0`). -/
+theorem hex_value (v n : Int64) :
+    ∃ ds, biHex (m := Res) [.ok (.int v), .ok (.int n)] = .ok (.str ds) ∧
+      Spec.Text.hexValue ds = Spec.pattern v.toInt :=
+  ⟨_, hex_contract v n, Spec.Text.hexValue_hex _ _⟩
+
+example : ∃ ds, biHex (m := Res) [.ok (.int (-2)), .ok (.int 3)] = .ok (.str ds) ∧ Spec.Text.hexValue ds = 18446744073709551614 := by
+  obtain ⟨ds, h, hv⟩ := hex_value (-2) 3
+  exact ⟨ds, h, by rw [hv]; decide⟩
+
+/-- `hex(v, n)` always returns, and the result consists of between 1 and 16 lower-case hexadecimal
 digits, for every value and pad count. -/
-theorem hex_digits (v n : Int64) (r : Val) (h : biHex (m := Res) [.ok (.int v), .ok (.int n)] = .ok r) :
-    ∃ ds, r = .str ds ∧ 1 ≤ ds.length ∧ ds.length ≤ 16 ∧ ∀ c ∈ ds, isHexDigitLower c = true := by
-  have e : biHex (m := Res) [.ok (.int v), .ok (.int n)] = hexLoop v 15 n 0 [] >>= fun s => .ok (.str s) := by rfl
-  rw [e] at h
-  cases hl : hexLoop v 15 n 0 [] with
-  | ok out =>
-    rw [hl] at h
-    obtain ⟨ds, e1, l1, l2, hd⟩ := hexLoop_ok v 15 n 0 [] out hl
-    rw [List.nil_append] at e1
-    subst e1
-    injection h with h
-    exact ⟨out, h.symm, l1, l2, hd⟩
-  | err c x => rw [hl] at h; cases h
-  | haz x => rw [hl] at h; cases h
-  | unmodelled => rw [hl] at h; cases h
+theorem hex_digits (v n : Int64) :
+    ∃ ds, biHex (m := Res) [.ok (.int v), .ok (.int n)] = .ok (.str ds) ∧ 1 ≤ ds.length ∧ ds.length ≤ 16 ∧
+      ∀ c ∈ ds, isHexDigitLower c = true := by
+  have e : biHex (m := Res) [.ok (.int v), .ok (.int n)] = hexStr v n >>= fun s => .ok (.str s) := by rfl
+  have hs := hexStr_spec v n
+  obtain ⟨ds, e1, l1, l2, hd⟩ := hexLoop_ok v 15 (hexClamp n) 0 [] _ hs
+  rw [List.nil_append] at e1
+  exact ⟨_, by rw [e, hs]; rfl, by rw [e1]; exact l1, by rw [e1]; exact l2, by rw [e1]; exact hd⟩
 
 example : biHex (m := Res) [.ok (.int 255), .ok (.int 4)] = .ok (.str [48, 48, 102, 102]) := by rfl
 example : biHex (m := Res) [.ok (.int (-1))] = .ok (.str (List.replicate 16 102)) := by rfl
+/-- the former finding region: pad counts near INT64_MAX pad to 16 digits; negative ones pad nothing -/
+example : biHex (m := Res) [.ok (.int 0), .ok (.int 9223372036854775807)] = .ok (.str (List.replicate 16 48)) := by
+  rw [hex_contract, show Spec.Text.hex (0 : Int64).toInt (9223372036854775807 : Int64).toInt = List.replicate 16 48 by decide +kernel]
+example : biHex (m := Res) [.ok (.int 171), .ok (.int Int64.minValue)] = .ok (.str [97, 98]) := by
+  rw [hex_contract, show Spec.Text.hex (171 : Int64).toInt Int64.minValue.toInt = [97, 98] by decide +kernel]
+example : biHex (m := Res) [.ok (.int 171), .ok (.int 17)] = .ok (.str ("00000000000000ab".toUTF8.toList)) := by
+  rw [hex_contract, show Spec.Text.hex (171 : Int64).toInt (17 : Int64).toInt = "00000000000000ab".toUTF8.toList by decide +kernel]
+
+/-! ## abs / pow -/
+
+/-- **abs(l)** for EVERY integer: the absolute value reduced modulo 2^64 into [−2^63, 2^63) — so it is
+`|l|` (and non-negative) for every `l` but INT64_MIN, and `abs(INT64_MIN) = INT64_MIN`, exactly as the
+unary minus wraps (`C03.neg_exact`). The C++ computes `0 - uint64_t(l)` (commit fde74fa; before, the
+signed `-l` was undefined behaviour at INT64_MIN: finding C01.bi.abs.overflow). -/
+theorem abs_contract (l : Int64) :
+    ∃ r, biAbs (m := Res) [.ok (.int l)] = .ok (.int r) ∧ r.toInt = Spec.wrap (l.toInt.natAbs : Int) ∧
+      (l ≠ Int64.minValue → r.toInt = (l.toInt.natAbs : Int) ∧ 0 ≤ r.toInt) ∧
+      (l = Int64.minValue → r = Int64.minValue) := by
+  have e : biAbs (m := Res) [.ok (.int l)] = .ok (.int (if l < 0 then Num.ineg l else l)) := by rfl
+  have h1 := Int64.le_toInt l
+  have h2 := Int64.toInt_lt l
+  refine ⟨_, e, ?_, ?_, ?_⟩
+  · by_cases hn : l < 0
+    · have hn' := (lt_zero_iff l).mp hn
+      rw [if_pos hn, C03.neg_exact]
+      unfold Spec.neg
+      congr 1; omega
+    · have hn' : ¬ l.toInt < 0 := fun h => hn ((lt_zero_iff l).mpr h)
+      rw [if_neg hn]
+      unfold Spec.wrap
+      rw [Int.bmod_eq_of_le] <;> omega
+  · intro hm
+    have hm' : l.toInt ≠ -2 ^ 63 := by
+      intro e'; apply hm; apply Int64.toInt_inj.mp; rw [e', Int64.toInt_minValue]
+    by_cases hn : l < 0
+    · have hn' := (lt_zero_iff l).mp hn
+      rw [if_pos hn, C03.neg_exact]
+      unfold Spec.neg Spec.wrap
+      rw [Int.bmod_eq_of_le] <;> omega
+    · have hn' : ¬ l.toInt < 0 := fun h => hn ((lt_zero_iff l).mpr h)
+      rw [if_neg hn]; omega
+  · intro hm; subst hm; rfl
+
+example : biAbs (m := Res) [.ok (.int (-5))] = .ok (.int 5) := by rfl
+example : biAbs (m := Res) [.ok (.int Int64.minValue)] = .ok (.int Int64.minValue) := by rfl
+example : ∃ r, biAbs (m := Res) [.ok (.int (-9223372036854775807))] = .ok (.int r) ∧ r.toInt = 9223372036854775807 := by
+  obtain ⟨r, h, _, h3, _⟩ := abs_contract (-9223372036854775807)
+  exact ⟨r, h, (h3 (by decide)).1⟩
+
+/-- `abs` of a decimal clears the sign (`std::abs(double)`, delegated to IEEE); a typed null comes back
+as it is and an untyped null gives a null decimal. -/
+theorem abs_decimal (d : Num.F64) : biAbs (m := Res) [.ok (.num d)] = .ok (.num (Num.bits (Num.f d).abs)) := by rfl
+
+theorem abs_null :
+    biAbs (m := Res) [.ok (.null Ty.int)] = .ok (.null Ty.int) ∧
+    biAbs (m := Res) [.ok (.null Ty.num)] = .ok (.null Ty.num) ∧
+    biAbs (m := Res) [.ok (.null Ty.none)] = .ok (.null Ty.num) := ⟨rfl, rfl, rfl⟩
+
+/-- `pow(a, n)` on two integers is the model of the `**` operator (`Num.ipow`), for ALL operands. -/
+theorem pow_eq_operator (a n : Int64) :
+    biPow (m := Res) [.ok (.int a), .ok (.int n)] = evalBin .exp (.int a) (.int n) := by
+  have e : biPow (m := Res) [.ok (.int a), .ok (.int n)] = Num.ipow a n >>= fun r => .ok (.int r) := by rfl
+  rw [e, C03.evalBin_int .exp Num.ipow rfl]
+  cases Num.ipow a n <;> rfl
+
+/-- **pow(a, n) is exact**: for every base and every exponent `n ≥ 0` the built-in returns the exact
+power `a^n` reduced modulo 2^64 (`Spec.pow`), computed by square-and-multiply in `uint64_t` like the
+`**` operator (builtin_pow.cpp after commit eec6e8e; before, it went through `std::pow` on doubles: the
+low bits were lost beyond 2^53 and the conversion back was undefined out of range — finding
+C01.bi.pow.floatcast). Uses `C03.pow_exact`. -/
+theorem pow_exact (a n : Int64) (hn : 0 ≤ n.toInt) :
+    ∃ r, biPow (m := Res) [.ok (.int a), .ok (.int n)] = .ok (.int r) ∧ r.toInt = Spec.pow a.toInt n.toInt.toNat := by
+  have e : biPow (m := Res) [.ok (.int a), .ok (.int n)] = Num.ipow a n >>= fun r => .ok (.int r) := by rfl
+  have h := C03.pow_exact a n hn
+  cases hp : Num.ipow a n with
+  | ok r =>
+    rw [hp] at h
+    simp only [C03.mapInt] at h
+    injection h with h
+    exact ⟨r, by rw [e, hp]; rfl, h⟩
+  | err c x => rw [hp] at h; simp [C03.mapInt] at h
+  | haz x => rw [hp] at h; simp [C03.mapInt] at h
+  | unmodelled => rw [hp] at h; simp [C03.mapInt] at h
+
+/-- Negative exponents as the `**` operator: `1/(a ** −n)` truncated toward zero — DIVIDE_BY_ZERO for
+base 0, 1 for base 1, ±1 for base −1 (by the parity of `n`), 0 for every other base. -/
+theorem pow_negative_exponent (a n : Int64) (hn : n.toInt < 0) :
+    biPow (m := Res) [.ok (.int a), .ok (.int n)] =
+      if a = 0 then .err Gen.EXC_RT_DIVIDE_BY_ZERO
+      else if a = 1 then .ok (.int 1)
+      else if a = -1 then .ok (.int (if n &&& 1 = 1 then -1 else 1))
+      else .ok (.int 0) := by
+  have e : biPow (m := Res) [.ok (.int a), .ok (.int n)] = Num.ipow a n >>= fun r => .ok (.int r) := by rfl
+  have hlt : n < 0 := (lt_zero_iff n).mpr hn
+  rw [e]
+  unfold Num.ipow
+  simp only [hlt, if_true, beq_iff_eq]
+  split
+  · rfl
+  · split
+    · rfl
+    · split
+      · split <;> rfl
+      · rfl
+
+example : ∃ r, biPow (m := Res) [.ok (.int 3), .ok (.int 39)] = .ok (.int r) ∧ r.toInt = Spec.pow 3 39 :=
+  pow_exact 3 39 (by decide)
+example : biPow (m := Res) [.ok (.int 3), .ok (.int 39)] = .ok (.int 4052555153018976267) := by
+  rw [pow_eq_operator, C03.evalBin_int .exp Num.ipow rfl, show Num.ipow 3 39 = .ok 4052555153018976267 by decide]; rfl
+/-- the former finding witness: pow(INT64_MAX, 5) = (2^63 − 1)^5 mod 2^64 = 2^63 − 1 -/
+example : biPow (m := Res) [.ok (.int 9223372036854775807), .ok (.int 5)] = .ok (.int 9223372036854775807) := by
+  rw [pow_eq_operator, C03.evalBin_int .exp Num.ipow rfl, show Num.ipow 9223372036854775807 5 = .ok 9223372036854775807 by decide]; rfl
+example : biPow (m := Res) [.ok (.int 0), .ok (.int (-1))] = .err Gen.EXC_RT_DIVIDE_BY_ZERO := by
+  rw [pow_negative_exponent _ _ (by decide)]; rfl
+example : biPow (m := Res) [.ok (.int (-1)), .ok (.int (-3))] = .ok (.int (-1)) := by
+  rw [pow_negative_exponent _ _ (by decide)]; rfl
+example : biPow (m := Res) [.ok (.null Ty.none), .ok (.int 2)] = .ok (.null Ty.int) := rfl
 
 /-! ## raw / hash -/
 
